@@ -9,19 +9,18 @@ variable {D L : Type} {env : Env D L} {G : D → Prop} {w : Prop}
 
 theorem select_tail_ok (hE : EnvOK env G) {sh : Shared D L} {st : St} (h : ShInv env G w sh) (hs : StInv env w sh st) :
     OkAnd (fun x => EditorInv env G w x.1)
-      (match (if st == .entering && sh.last == .absorb then Shared.tryAutoCommit env sh else .ok sh) with
+      (match (if (st == .entering || st == .enteringSyllable) && sh.last == .absorb then Shared.tryAutoCommit env sh else .ok sh) with
         | .ok sh => (.ok ({ shared := sh, state := st }, sh.last != .bell) : Outcome (Editor D L × Bool))
         | .panic p => .panic p
         | .outOfFuel => .outOfFuel) := by
-  by_cases hc : (st == .entering && sh.last == .absorb) = true
+  by_cases hc : ((st == .entering || st == .enteringSyllable) && sh.last == .absorb) = true
   · rw [if_pos hc]
     obtain ⟨sh2, hq, hi2, _⟩ := tryAutoCommit_ok hE h
     rw [hq]
-    have hst : st = .entering := by
-      simp only [Bool.and_eq_true] at hc
-      exact eq_of_beq hc.1
-    subst hst
-    exact .ok ⟨hi2, trivial⟩
+    have hst : st = .entering ∨ st = .enteringSyllable := by
+      simp only [Bool.and_eq_true, Bool.or_eq_true] at hc
+      exact hc.1.imp eq_of_beq eq_of_beq
+    rcases hst with rfl | rfl <;> exact .ok ⟨hi2, trivial⟩
   · rw [if_neg hc]
     exact .ok ⟨h, hs⟩
 
